@@ -288,9 +288,10 @@ def _series_obligations(rep, repo, prog: Program, s: Series, mode, A: Algebra, I
     elif s.start == 1:
         c0 = X["one"]
     else:
-        if not (isinstance(s.start, str) and s.start.endswith("_0") and s.start[:-2] in prog.inputs()):
-            raise AnalysisError(RULE, f"{where}: start {s.start!r} is not <input>_0")
-        c0 = A.order0(I[s.start[:-2]])
+        src = s.start[:-2] if isinstance(s.start, str) and s.start.endswith("_0") and s.start[:-2] in prog.inputs() else s.start
+        if src not in prog.inputs():
+            raise AnalysisError(RULE, f"{where}: start {s.start!r} does not name an input series")
+        c0 = A.order0(I[src])
     if c0 is not None:
         _emit(rep, repo, prog, mode, s.name, "start", "order-0 value", A,
               A.sub(A.order0(L), c0), s.node)
